@@ -35,6 +35,8 @@ pub struct FaultCounts {
     pub failed_call: u64,
     pub env_change: u64,
     pub debug_session: u64,
+    #[serde(default)]
+    pub heap_layout: u64,
 }
 
 impl FaultCounts {
@@ -49,6 +51,7 @@ impl FaultCounts {
         self.failed_call += o.failed_call;
         self.env_change += o.env_change;
         self.debug_session += o.debug_session;
+        self.heap_layout += o.heap_layout;
     }
     pub fn any(&self) -> bool {
         self.hash_reseed
@@ -171,6 +174,9 @@ fn plan_faults(plan: &Plan, out: &Outcome, refs: &mut RefTable) -> (FaultCounts,
     let mut env = plan.env_before.clone();
     if plan.env_before.is_some() {
         f.env_change += 1;
+    }
+    if plan.heap_perturb > 0 {
+        f.heap_layout += 1;
     }
     let base_nonref = plan.hash_base != 0;
     let all = plan
